@@ -145,12 +145,14 @@ def run_kani(module, tier, profile="dev", jobs=None, timeout_s=None, extra_filte
             cmd += ["--harness", s]
     t0 = time.time()
     with open(log_path, "w") as lf:
-        # address-space cap per process keeps a runaway CBMC from taking the sandbox down
-        shell = "ulimit -v 25000000; exec " + " ".join(_q(c) for c in cmd)
-        p = subprocess.run(["bash", "-c", shell], cwd=crate, env=kani_env(profile, crate=crate),
-                           stdout=lf, stderr=subprocess.STDOUT)
+        # cargo-kani itself is not capped; a watchdog kills any CBMC descendant whose resident set passes the
+        # limit (a runaway CBMC must not take the sandbox down; the harness then counts as inconclusive)
+        env = kani_env(profile, crate=crate)
+        proc = subprocess.Popen(cmd, cwd=crate, env=env, stdout=lf, stderr=subprocess.STDOUT)
+        killed = _watch(proc, int(os.environ.get("VERIF_CBMC_RSS_MB", "14000")))
+    p = proc
     wall = time.time() - t0
-    info = {"cmd": " ".join(cmd), "rc": p.returncode, "wall_s": wall, "log": log_path,
+    info = {"cmd": " ".join(cmd), "rc": p.returncode, "wall_s": wall, "log": log_path, "cbmc_killed_over_memory": killed,
             "profile": profile, "rustflags": kani_env(profile)["RUSTFLAGS"]}
     if REPO != "/repo":
         # a repo under test elsewhere (development aid): point the path dependency there
@@ -194,6 +196,39 @@ def run_kani(module, tier, profile="dev", jobs=None, timeout_s=None, extra_filte
     for h in hs.values():
         classify(h)
     return sorted(hs.values(), key=lambda h: h.name), info
+
+
+def _watch(proc, limit_mb):
+    """poll the process tree below `proc`; kill CBMC processes over the RSS limit; returns their count"""
+    killed = 0
+    while proc.poll() is None:
+        try:
+            out = subprocess.run(["ps", "-eo", "pid,ppid,rss,comm"], capture_output=True, text=True).stdout
+            rows = [l.split(None, 3) for l in out.splitlines()[1:]]
+            kids = {}
+            for pid, ppid, rss, comm in (r for r in rows if len(r) == 4):
+                kids.setdefault(ppid, []).append((pid, int(rss), comm))
+            stack, seen = [str(proc.pid)], set()
+            while stack:
+                q = stack.pop()
+                for pid, rss, comm in kids.get(q, []):
+                    if pid in seen:
+                        continue
+                    seen.add(pid)
+                    stack.append(pid)
+                    if comm.strip().startswith("cbmc") and rss > limit_mb * 1024:
+                        try:
+                            os.kill(int(pid), 9)
+                            killed += 1
+                        except OSError:
+                            pass
+        except Exception:
+            pass
+        try:
+            proc.wait(timeout=5)
+        except subprocess.TimeoutExpired:
+            pass
+    return killed
 
 
 def _q(s):
